@@ -1,10 +1,15 @@
 #!/usr/bin/env python3
-"""Refresh the generated round-5 table inside DESIGN.md (between the round5-table markers)."""
+"""Refresh the generated seed tables inside DESIGN.md (between the roundN-table markers)."""
 import subprocess, os
 V = os.path.dirname(os.path.dirname(os.path.abspath(__file__)))
 p = os.path.join(V, "DESIGN.md")
 s = open(p).read()
-tab = subprocess.run(["python3", os.path.join(V, "lib", "mkseedtable.py"), "7,8"], capture_output=True, text=True).stdout
-a, b = s.index("<!-- round5-table-begin -->\n") + len("<!-- round5-table-begin -->\n"), s.index("<!-- round5-table-end -->")
-open(p, "w").write(s[:a] + tab + s[b:])
-print("DESIGN.md round-5 table refreshed")
+for rnd, suf in (("round5", "7,8"), ("round6", "9,10")):
+    b0, b1 = "<!-- %s-table-begin -->\n" % rnd, "<!-- %s-table-end -->" % rnd
+    if b0 not in s:
+        continue
+    tab = subprocess.run(["python3", os.path.join(V, "lib", "mkseedtable.py"), suf], capture_output=True, text=True).stdout
+    a, b = s.index(b0) + len(b0), s.index(b1)
+    s = s[:a] + tab + s[b:]
+open(p, "w").write(s)
+print("DESIGN.md seed tables refreshed")
